@@ -266,14 +266,15 @@ def bounded(tier, seed, procs):
                 b2.case(("mcs", repr(it), prefix, scope), sample=dict(item=repr(it), prefix=prefix, scope=scope))
                 ok = r[0] == "val"
                 if ok:
-                    if isinstance(it, p.CommonSubexpression) and (scope is None or scope == p.cse_scope.EVALUATION or it.scope == scope):
-                        ok = r[1] is it
+                    if isinstance(it, p.CommonSubexpression):
+                        ok = r[1] is it         # an already wrapped node is left as it is (the statement makes no exception for a requested scope)
                     elif not isinstance(it, p.Expression):
                         ok = r[1] is it or r[1] == it
                     else:
                         ok = isinstance(r[1], p.CommonSubexpression) and r[1].child is it and r[1].prefix == prefix
                 if not ok:
-                    b2.fail(Failure("wrap-helpers", f"what=make_cse item={it!r} prefix={prefix} scope={scope}", dict(kind="mcs", item=repr(it), prefix=prefix, scope=scope),
+                    rw = "cause=rewrapped-for-another-scope " if (isinstance(it, p.CommonSubexpression) and r[0] == "val" and isinstance(r[1], p.CommonSubexpression) and r[1].child is it and r[1].scope == scope) else ""
+                    b2.fail(Failure("wrap-helpers", f"{rw}what=make_cse item={it!r} prefix={prefix} scope={scope}", dict(kind="mcs", item=repr(it), prefix=prefix, scope=scope),
                                     expected="scalar rule", actual=outcome.describe(r), functions=["make_common_subexpression"]))
             if isinstance(it, p.Expression):
                 r = outcome.run(lambda: p.wrap_in_cse(it, prefix))
